@@ -65,6 +65,12 @@ CHECKS = {
             "queried; every TzMap layout is compiled with tzmap cc and all present, neighbouring and absent keys looked up (TzMapTrace.tla), compiled "
             "maps are truncated and corrupted word by word",
             "memory safety is observed by the sanitizer (mmap redirected to an exact-size heap copy); counts in the model are 0..1", "5 C19"),
+    "C15": ("model_checking", "TLA+ Seq state machine (safety + liveness <>done) model-checked; real dseq runs replayed event by event by SeqTrace (Emit enabled only for the next element, Stop only when none remains, Timeout never)",
+            "Seq.tla (integer line with skips and --compute-from-last, month/year steps in one step with clamp, times around the clock) is "
+            "model-checked for safety and termination; 370|7000 seeded and boundary invocations of the unmodified dseq are run under a timeout and "
+            "their output validated line by line by SeqTrace.tla",
+            "output lines are only re-encoded (date -> chain day, time -> second of day); FIRST = LAST for times is read as one full lap (the tool's "
+            "reading); compound month+day increments are not judged", "5 C15"),
 }
 NOT_APPLICABLE = []
 
